@@ -399,6 +399,61 @@ def r04_6(rep: Report) -> None:
     rep.ok(rid, MP4, 'statement-position reads', f'{n} reads examined')
 
 
+def r04_7(rep: Report, idx: Index) -> None:
+    """`FieldWriter.writebits` collects bits in a buffer that `done()` writes out *without clearing it*.
+    A writer is therefore flushed once, by the function that made it: `w.done()` on a writer received as a
+    parameter (or made outside the loop the call sits in) writes the bits of every earlier user again -
+    the second SegmentReference of a sidx would be preceded by a copy of the first."""
+    rid = 'R04.7'
+    fw_rel = 'dashlive/utils/fio/field_writer.py'
+    fw = need(find_class(rep.repo.tree(fw_rel), 'FieldWriter'), 'FieldWriter')
+    done = need(find_func(fw, 'done'), 'FieldWriter.done')
+    clears = any(isinstance(n, (ast.Assign, ast.Delete)) and 'self.bits' in norm(n) for n in ast.walk(done)) or any(
+        isinstance(n, ast.Call) and (call_name(n) or '').startswith('self.bits.') and n.func.attr in ('clear',)
+        for n in ast.walk(done))
+    if clears:
+        rep.ok(rid, f'{fw_rel}::FieldWriter.done', 'flush keeps the buffer', 'done() resets the bit buffer: flushing twice is harmless')
+        return
+    rep.ok(rid, f'{fw_rel}::FieldWriter.done', 'flush keeps the buffer',
+           'done() writes self.bits and keeps it: each writer may be flushed once')
+    n_sites = 0
+    for q, f in sorted(idx.functions.items()):
+        if not f.rel.startswith('dashlive/mpeg/') and not f.rel.startswith('dashlive/scte35/'):
+            continue
+        fn = f.node
+        for c in ast.walk(fn):
+            if not (isinstance(c, ast.Call) and isinstance(c.func, ast.Attribute) and c.func.attr == 'done'
+                    and isinstance(c.func.value, ast.Name) and not c.args):
+                continue
+            wname = c.func.value.id
+            uses_bits = any(isinstance(x, ast.Call) and isinstance(x.func, ast.Attribute) and x.func.attr == 'writebits'
+                            and norm(x.func.value) == wname for x in ast.walk(fn))
+            if not uses_bits:
+                continue
+            n_sites += 1
+            defs = [a_ for a_ in ast.walk(fn) if isinstance(a_, (ast.Assign, ast.AnnAssign)) and getattr(a_, 'value', None) is not None
+                    and norm(a_.targets[0] if isinstance(a_, ast.Assign) else a_.target) == wname]
+            own = bool(defs) and all(isinstance(d.value, ast.Call) and (call_name(d.value) or '').split('.')[-1] == 'FieldWriter'
+                                     for d in defs)
+            key = f'{wname}.done()'
+            if not own:
+                rep.fail(rid, f.construct(), key,
+                         f'`{wname}` is not a FieldWriter made by this function (it is received from the caller): done() '
+                         'writes the whole bit buffer and keeps it, so the next user of the same writer emits these '
+                         'bits again (a sidx with two references encodes reference 1 twice)', c, file=f.rel)
+                continue
+            loops = [a_ for a_ in ancestors(c) if isinstance(a_, (ast.For, ast.While))]
+            outside = [lp for lp in loops if not any(any(x is d for x in ast.walk(lp)) for d in defs)]
+            if outside:
+                rep.fail(rid, f.construct(), key,
+                         f'`{wname}` is made before the loop and flushed inside it: every iteration writes the bits of '
+                         'the earlier iterations again', c, file=f.rel)
+            else:
+                rep.ok(rid, f.construct(), key, 'the writer is made and flushed by the same function, once')
+    if n_sites < 2:
+        raise AnalysisError(f'only {n_sites} done() call(s) on bit-level FieldWriters found')
+
+
 def analyse(rep: Report) -> None:
     rep.explanation = (
         'For every codec class of dashlive/mpeg/mp4.py the parse-side and encode-side bodies are '
@@ -413,12 +468,14 @@ def analyse(rep: Report) -> None:
              floor=10)
     rep.rule('R04.4', 'box header reader/writer agreement', floor=3)
     rep.rule('R04.6', 'FieldReader.read() result is never used as a value', floor=1)
+    rep.rule('R04.7', 'a bit-level FieldWriter is flushed once, by the function that made it', floor=3)
     idx = Index(rep.repo, 'dashlive')
     layout_rule(rep, idx, 'R04.1', [MP4], 44)
     r04_2(rep, idx)
     r04_3(rep)
     r04_4(rep)
     r04_6(rep)
+    r04_7(rep, idx)
     # registry: every @fourcc class has a pair or inherits one
     mod = idx.by_rel[MP4]
     reg = [c for c in mod.classes.values()
